@@ -40,8 +40,10 @@ func init() {
 			bs = append(bs, Batch{Name: "wire-quiet", Args: map[string]string{"mode": "wire", "quiet": "1", "part": "0", "parts": "1"}, Race: true, Procs: 2})
 			return bs
 		},
-		RaceClaim: func(rep string) bool { return raceBothIn(rep, "client.ParseLine", "client.parseUserHost", "client.(*Line)") },
-		Run:       runC01,
+		RaceClaim: func(rep string) bool {
+			return raceBothIn(rep, "client.ParseLine", "client.parseUserHost", "client.(*Line)")
+		},
+		Run: runC01,
 	})
 }
 
